@@ -212,6 +212,20 @@ def gen_trapping(rng, quick):
     return Case('StorageParticulateTrapping', p, [gen_stock(rng)], [gen_load(rng, n), inflow, q, v], dt, regime=reg)
 
 
+def gen_trapping_degenerate(rng, quick):
+    """catalogue-default-like parameters: zeros in capacity / discharge factor / power / subtractor, which make the
+    sedimentation index 0/0 or x/0 and exercise math.Pow(NaN, 0) = 1, Pow(Inf, 0), Pow(0, y)"""
+    cs = gen_trapping(rng, quick)
+    p = cs.params
+    for k in (1, 3, 4, 5, 6):
+        if rng.random() < 0.5:
+            p[k] = 0.0
+    if rng.random() < 0.5:
+        p[4] = 0.5
+    cs.meta['regime'] = 'degenerate-params/' + str(cs.meta.get('regime'))
+    return cs
+
+
 def gen_trapall(rng, quick):
     n = gen_n(rng, quick)
     q, v, reg = gen_hydro(rng, n, DEFAULT_DT)
@@ -555,6 +569,18 @@ def main():
             cases.append(gen_dnd(rng, quick, decay=False))
         for _ in range(N // 2):
             cases.append(gen_dnd(rng, quick, decay=True))
+    # Probe of the shared OCaml driver's libm: Coq's Float64 represents NaN by the SIGNALLING pattern
+    # 0x7ff0000000000001, and C pow(sNaN, 0) is NaN while Go's math.Pow(NaN, 0) is 1.  If ocaml/driver.ml does not
+    # quiet the NaN before calling pow, the degenerate-parameter stream would report a model artefact (not a
+    # difference of algorithm), so it is skipped and the fact recorded in the evidence.
+    probe = kcase('StorageParticulateTrapping', [86400.0, 0.0, 8.0, 0.0, 0.5, 0.0, 0.0], [0.0], [[1.0], [143.0], [1.0], [0.0]])
+    pr = parse_kresult(run_lines(model_bin, [probe], crash_token='MODELCRASH')[0])
+    driver_pow_snan_artefact = not (pr[0] == 'OK' and pr[1][0][0] == 0.0)
+    if driver_pow_snan_artefact:
+        log('NOTE: model driver evaluates pow(NaN, 0) as NaN (signalling NaN passed to libm); degenerate-parameter trapping stream skipped')
+    else:
+        for _ in range(N // 4):
+            cases.append(gen_trapping_degenerate(rng, quick))
     lines = [cs.line() for cs in cases]
     impl = run_lines(impl_bin, lines, env=GOENV)
     model = run_lines(model_bin, lines, crash_token='MODELCRASH')
@@ -622,7 +648,7 @@ def main():
             if not c.proof_broken:
                 c.proof_broken = ('coqchk OW.Properties.C12', e.output[-3000:])
     not_reproduced = sorted(k['id'] for k in c.known if k['id'] not in c.known_hits)
-    c.finish(extra_cov={'coqchk': chk, 'known_findings_not_reproduced_this_run': not_reproduced, 'per_model': per_model, 'branch_hits': dict(sorted(orc.branches.items())),
+    c.finish(extra_cov={'driver_pow_snan_artefact_stream_skipped': driver_pow_snan_artefact, 'coqchk': chk, 'known_findings_not_reproduced_this_run': not_reproduced, 'per_model': per_model, 'branch_hits': dict(sorted(orc.branches.items())),
                         'prefix_runs': len(plines), 'exhaustive': False,
                         'oracle': 'per-step and cumulative mass budget (rtol 1e-9), loss only when working volume < 0.01, '
                                   'non-negative downstream loads and stores, remobilisation <= channel store'},
